@@ -14,7 +14,7 @@ from common import Suite
 from props import c10
 
 TRUSTED = ["C03: validity preservation of the unguarded stages (alter_code, regex / text stages, renaming) is an explicit hypothesis, examined by the sweep"]
-ASSUMPTIONS = ["ast.parse is the validity predicate"]
+ASSUMPTIONS = ["validity predicate: compile(text) raises no SyntaxError (ast.parse alone accepts `return` outside a function); the tool's own guard is ast.parse"]
 
 
 def formatfile_suite(ctx):
